@@ -547,7 +547,8 @@ Definition refutation_witnesses : list (opn * list val) :=
     (OAdd, [VBig B; VRat 1 2]);                                        (* bignum + ratio goes through floats *)
     (OMod, [VFix 5; VFix 0]);                                          (* arithmetic-error, not division-by-zero *)
     (OCmp CLt, [VBig 590295810358705651712; VRat 1180591620717411303425 2]);    (* 2^69 < 2^69 + 1/2 is false through float64 (= is exact since slip repair C16-11) *)
-    (OBit BAnd, [VBig B; VFix 1]) ].                                   (* small result of the bignum loop stays a bignum *)
+    (OBit BAnd, [VBig B; VFix 1]);                                     (* small result of the bignum loop stays a bignum *)
+    (OExt true, [VBig 590295810358705651712; VRat 1180591620717411303425 2]) ].  (* max compares 2^69 and 2^69 + 1/2 through floats: answers 2^69 *)
 Lemma outside_guard_refuted :
   forallb (fun w => refuted (fst w) (snd w)) refutation_witnesses = true /\
   forallb (fun w => negb (in_domain (fst w) (snd w))) refutation_witnesses = true.
